@@ -6,17 +6,17 @@ use tftpd::{ErrorCode, OptionType, Packet, TransferOption};
 const SEC: u64 = 1_000_000_000;
 
 fn ack(n: u64) -> Vec<u8> {
-    Packet::Ack((n % 65536) as u16).serialize().unwrap()
+    raw_ack((n % 65536) as u16)
 }
 
 fn data(n: u64, payload: Vec<u8>) -> Vec<u8> {
-    Packet::Data { block_num: (n % 65536) as u16, data: payload }.serialize().unwrap()
+    raw_data((n % 65536) as u16, &payload)
 }
 
 fn stray(rng: &mut Rng) -> Vec<u8> {
     match rng.below(7) {
-        0 => Packet::Oack(vec![TransferOption { option: OptionType::BlockSize, value: 512 }]).serialize().unwrap(),
-        1 => Packet::Rrq { filename: "x".into(), mode: "octet".into(), options: vec![] }.serialize().unwrap(),
+        0 => raw_oack(&[("blksize", "512")]),
+        1 => vec![0, 1, b'x', 0, b'o', b'c', b't', b'e', b't', 0],
         2 => vec![0, 9, 1, 2],
         3 => vec![0],
         4 => vec![0, 4, 7],
@@ -113,7 +113,7 @@ pub fn gen_send(rng: &mut Rng) -> String {
     let mut evs: Vec<String> = vec![];
     if check {
         match rng.below(12) {
-            0 => evs.push(ev_d(0, &Packet::Error { code: ErrorCode::NotDefined, msg: "no".into() }.serialize().unwrap())),
+            0 => evs.push(ev_d(0, &raw_error(0, "no"))),
             1 => evs.push(ev_d(0, &ack(rng.range(1, 3)))),
             2 => evs.push(format!("e{}", tmo)),
             3 => evs.push(ev_d(0, &stray(rng))),
@@ -142,7 +142,7 @@ pub fn gen_send(rng: &mut Rng) -> String {
                     acked = hi;
                 }
                 8 => {
-                    evs.push(ev_d(d, &Packet::Error { code: ErrorCode::DiskFull, msg: "full".into() }.serialize().unwrap()));
+                    evs.push(ev_d(d, &raw_error(3, "full")));
                     break;
                 }
                 9 => evs.push(ev_d(d, &data(acked + 1, vec![1, 2, 3]))),
@@ -272,7 +272,7 @@ pub fn gen_recv(rng: &mut Rng) -> String {
                     k += 1;
                 }
                 8 => {
-                    evs.push(ev_d(0, &Packet::Error { code: ErrorCode::NotDefined, msg: "abort".into() }.serialize().unwrap()));
+                    evs.push(ev_d(0, &raw_error(0, "abort")));
                     aborted = true;
                     break;
                 }
